@@ -118,8 +118,8 @@ def run(fn, module, args_src, timeout=6, unwrap_convert=False, glob_names=('G1',
     except BaseException as e:  # pylint:disable=broad-except
       if type(e).__name__ != '_Overflow':
         raise
-      out['kind'] = 'timeout'
-      out['value'] = 'log overflow'
+      out['kind'] = 'overflow'
+      out['value'] = 'more than 20000 side-effect events'
   finally:
     signal.setitimer(signal.ITIMER_REAL, 0, 0)
     signal.signal(signal.SIGALRM, old)
@@ -136,10 +136,12 @@ def run(fn, module, args_src, timeout=6, unwrap_convert=False, glob_names=('G1',
 
 def compare(o, c):
   """Returns None when outcomes agree under the C01 rules, else a description."""
-  if o['kind'] == 'timeout':
+  if o['kind'] in ('timeout', 'overflow'):
     return None   # reference did not finish: nothing to compare (counted by the caller)
   if c['kind'] == 'timeout':
-    return 'original finished (%s %s) but converted function did not terminate within the watchdog' % (
+    return None   # wall-clock watchdog: inconclusive for this input, never a verdict (counted by the caller)
+  if c['kind'] == 'overflow':
+    return 'original finished (%s %s) but the converted function produced more than 20000 side-effect events (does not terminate)' % (
         o['kind'], o['value'])
   if o['kind'] != c['kind']:
     return 'original %s %s, converted %s %s [%s]' % (
